@@ -1386,3 +1386,67 @@ def stale_snapshot_rule(index, rep, rid, modules):
                     rep.check(bad is None, rid, f.qualname, "`%s` (snapshot of self.%s) read after self.%s was rebound" % ("$snap", attr, attr), fn_where(f, bad.stmt if bad else b), "",
                               "%s takes `%s = self.%s`, later rebinds self.%s (`%s`) and afterwards still reads `%s` (`%s`): on the paths where the attribute was replaced - a root unifurcation suppressed, a new seed node installed - the local names the discarded object, so what is computed from it (the tree's leaf set, the rooting) belongs to the old one" % (f.qualname, x, attr, attr, norm_stmt(b)[:50], x, norm_stmt(bad.stmt)[:60] if bad else ""))
     return n
+
+
+_MATERIALISERS = {"set", "list", "tuple", "sorted", "frozenset", "dict"}
+
+
+def one_pass_iterable_rule(index, rep, rid, functions, param_names):
+    """A collection argument that callers may pass as ANY iterable (a generator, filter(), map()) is walked at most once:
+    it is not iterated, materialised or membership-tested in a repeated context (inside a loop, a comprehension's
+    filter/element, a lambda or nested function) unless it was first rebound to a container built from itself."""
+    n = 0
+    for f in functions:
+        pm = None
+        for p_ in [x for x in f.params if x in param_names]:
+            n += 1
+            pm = pm or parent_map(f.node)
+            # where is it rebound to a materialised copy?  (p = set(p))
+            mat_stmts = [a for a in walk_no_nested(f.node) if isinstance(a, ast.Assign) and any(isinstance(t, ast.Name) and t.id == p_ for t in a.targets) and isinstance(a.value, ast.Call)
+                         and ((isinstance(a.value.func, ast.Name) and a.value.func.id in _MATERIALISERS) or call_name(a.value) in ("get_taxa",))]
+            mat_line = min([a.lineno for a in mat_stmts], default=None)
+            bad = None
+            for x in ast.walk(f.node):
+                if not (isinstance(x, ast.Name) and x.id == p_ and isinstance(x.ctx, ast.Load)):
+                    continue
+                if mat_line is not None and x.lineno > mat_line:
+                    continue
+                par = pm.get(x)
+                if isinstance(par, ast.Compare) and all(isinstance(o, (ast.Is, ast.IsNot)) for o in par.ops):
+                    continue
+                if isinstance(par, ast.Call) and isinstance(par.func, ast.Name) and par.func.id in ("isinstance", "id", "type", "hasattr", "len") and x in par.args:
+                    continue
+                if isinstance(par, ast.Subscript) and par.value is x:
+                    continue
+                if isinstance(par, (ast.keyword,)) or (isinstance(par, ast.Call) and x in par.args and not (isinstance(par.func, ast.Name) and par.func.id in _MATERIALISERS)):
+                    # handed on whole to another function: that function's business (checked there if it is in scope)
+                    rep_ctx = False
+                    q = par
+                    while q is not None and q is not f.node:
+                        if isinstance(q, (ast.Lambda, ast.FunctionDef)) or (isinstance(q, (ast.For, ast.While)) and not any(x is y for y in ast.walk(q.iter if isinstance(q, ast.For) else q.test))):
+                            rep_ctx = True
+                        q = pm.get(q)
+                    if not rep_ctx:
+                        continue
+                rep_ctx = False
+                q = par
+                first_iter_of = None
+                while q is not None and q is not f.node:
+                    if isinstance(q, ast.For):
+                        if any(x is y for y in ast.walk(q.iter)):
+                            pass        # the loop's own iterable: evaluated once
+                        else:
+                            rep_ctx = True
+                    elif isinstance(q, ast.While):
+                        rep_ctx = True
+                    elif isinstance(q, (ast.Lambda, ast.FunctionDef, ast.AsyncFunctionDef)):
+                        rep_ctx = True
+                    elif isinstance(q, (ast.ListComp, ast.SetComp, ast.GeneratorExp, ast.DictComp)):
+                        if not any(x is y for y in ast.walk(q.generators[0].iter)):
+                            rep_ctx = True
+                    q = pm.get(q)
+                if rep_ctx:
+                    bad = bad or x
+            rep.check(bad is None, rid, f.qualname, "iterable argument `%s` walked repeatedly" % p_, fn_where(f, bad if bad is not None else f.node), "%s walks `%s` once (or materialises it first)" % (f.qualname, p_),
+                      "%s uses its argument `%s` in a repeated context (`%s`) without first turning it into a container: the documentation admits any iterable, and a generator / filter() / map() is empty after the first pass - asked to keep A, C and E the operation then keeps A only (or extracts a single leaf), while the same call with a list is right" % (f.qualname, p_, norm(pm.get(bad))[:60] if bad is not None else ""))
+    return n
